@@ -260,6 +260,12 @@ def check_binarize(ctx, res, cases):
         res.dist[f"binarize:n{len(leaves_of(t))}k{max_arity(t)}"] += 1
         want = [canon_nested(r) for r in refinements(t)]
         tree = to_ete(t)
+        # "keep every ... colour of the original": leaves are nodes too.  Colour a third of the leaves (the model has
+        # no leaf annotation, so this is judged against the original tree only)
+        for lf in tree.get_leaves():
+            if int(lf.name[1:]) % 3 == 0:
+                lf.add_feature("color", "red" if int(lf.name[1:]) % 2 else "blue")
+        leaf_col = {lf.name: getattr(lf, "color", None) for lf in tree.get_leaves()}
         before = tree.write(format=8, format_root_node=True, features=["color"])
         try:
             real = binarize(tree)
@@ -283,6 +289,11 @@ def check_binarize(ctx, res, cases):
         if lost:
             res.violation("binarize changes the leaf set", info, observed=lost[0].write(format=8))
             continue
+        recol = [r for r in real if {lf.name: getattr(lf, "color", None) for lf in r.get_leaves()} != leaf_col]
+        if recol:
+            res.violation("binarize changes the colour of a leaf", info,
+                          observed=recol[0].write(format=8, features=["color"]))
+            continue
         dup, missing, extra = multiset_diff(got, want)
         if dup:
             res.violation("binarize yields a refinement twice", info, observed=dup[0])
@@ -301,13 +312,14 @@ def check_binarize(ctx, res, cases):
         for r in pick:
             spec_reqs.append({"op": "c08_is_refinement", "b": from_ete(r), "t": t})
             spec_owner.append(info)
-        # tie: the model mirrors the generator order
+        # tie: the model's list and the real list are the same MULTISET of canonical refinements.  The order in
+        # which binarize lists the refinements is not part of the property (a rewrite of graft that recurses
+        # right-before-left is correct); an order difference is recorded in the evidence, never a broken tie.
         mod = [canon_model(c) for c in m["trees"]]
-        if mod != got:
-            if sorted(mod) != sorted(got):
-                res.tie_broken("binarize: multiset of refinements", info, len(mod), len(got))
-            else:
-                res.tie_broken("binarize: order of the refinements", info)
+        if sorted(mod) != sorted(got):
+            res.tie_broken("binarize: multiset of refinements", info, len(mod), len(got))
+        elif mod != got:
+            res.dist["binarize: same refinements as the model, listed in another order"] += 1
     for info, ok in zip(spec_owner, ctx.driver.parallel(spec_reqs)):
         if not (ok["refines"] and ok["ann"]):
             res.violation("binarize: a result is not a refinement keeping the annotations (Lean specification)",
@@ -372,8 +384,11 @@ def check_arrange(ctx, res):
                 f"foreign {len(extra)}); expected each of the {len(want)} binary trees over the items once",
                 info, expected=(missing[:1] or None), observed=((dup or extra)[:1] or None))
             continue
-        if [canon_model(c) for c in m] != got:
-            res.tie_broken("arrange_leaves: list of arrangements", info, len(m), len(got))
+        mod = [canon_model(c) for c in m]
+        if sorted(mod) != sorted(got):
+            res.tie_broken("arrange_leaves: multiset of arrangements", info, len(m), len(got))
+        elif mod != got:
+            res.dist["arrange: same arrangements as the model, listed in another order"] += 1
 
 
 def binary_shapes_nested(n, ids):
@@ -470,10 +485,12 @@ def check_graft(ctx, res):
                     expected=(missing[:1] or None), observed=((dup or extra)[:1] or None))
                 continue
         m1, m2 = outs[2 * i], outs[2 * i + 1]
-        if [canon_model(c) for c in m1] != got:
-            res.tie_broken("graft (items = ignored nodes)", info, len(m1), len(got))
-        if [canon_model(c) for c in m2] != got:
-            res.tie_broken("graft (literal ignore test on leaf sets)", info, len(m2), len(got))
+        for mm, rel in ((m1, "graft (items = ignored nodes)"), (m2, "graft (literal ignore test on leaf sets)")):
+            mod = [canon_model(c) for c in mm]
+            if sorted(mod) != sorted(got):
+                res.tie_broken(rel, info, len(mm), len(got))
+            elif mod != got:
+                res.dist["graft: same grafts as the model, listed in another order"] += 1
 
 
 def _items(t, ignored, path=()):
@@ -633,12 +650,19 @@ def expected_tags(case, t, kind):
     return {cl: (name(tagv[1]), cols.get(tagv[1])) for cl, tagv in clades_tagged(t).items()}
 
 
+def leaf_colours(inp):
+    """{"O"/"S": {leaf name: colour}} of a real input."""
+    return {"O": {lf.name: getattr(lf, "color", None) for lf in inp.object_tree.get_leaves()},
+            "S": {lf.name: getattr(lf, "color", None) for lf in inp.species_lca.tree.get_leaves()}}
+
+
 def check_input_binarize(ctx, res, case):
     """ReconciliationInput.binarize() + label_internal on one multifurcating case."""
     info = {"kind": "input", "case": case}
     sid_of, oleaves, tO, tS = multi_setup(case)
     inp = build_multi(case)
     orig = leaf_data_by_name(inp)
+    orig_cols = leaf_colours(inp)
     try:
         outs = list(inp.binarize())
     except Exception as e:  # noqa
@@ -658,6 +682,10 @@ def check_input_binarize(ctx, res, case):
             return
         if b.costs != inp.costs:
             res.violation("ReconciliationInput.binarize changes the costs", info)
+            return
+        if leaf_colours(b) != orig_cols:
+            res.violation("ReconciliationInput.binarize changes the colour of a leaf", info,
+                          expected=orig_cols, observed=leaf_colours(b))
             return
         try:
             bO, bS = real_pair(b, case, sid_of, oleaves)
@@ -760,6 +788,8 @@ def check_end_to_end(ctx, res, case, algo):
         res.case(info, npoly > 0)
         inp = build_multi(case)
         orig = leaf_data_by_name(inp)
+        orig_cols = leaf_colours(inp)
+        tags = {"object": expected_tags(case, tO, "O"), "species": expected_tags(case, tS, "S")}
         try:
             with contextlib.redirect_stderr(io.StringIO()):
                 outs = list(algorithms()[algo](inp, getattr(RetentionPolicy, policy.upper())))
@@ -786,6 +816,16 @@ def check_end_to_end(ctx, res, case, algo):
                 if any(c not in cl for c in clades_tagged(t)):
                     res.violation(f"{algo} ({policy}): the {kind} tree of a solution lost a clade of the input", info)
                     return
+                # ... "node name and colour of the original": the original nodes are found by their clade
+                for c, tg in tags[kind].items():
+                    if cl[c] != tg:
+                        res.violation(
+                            f"{algo} ({policy}): in the {kind} tree of a solution the original node with clade {c} "
+                            f"should keep (name, colour) {tg}, found {cl[c]}", info)
+                        return
+            if leaf_colours(o.input) != orig_cols:
+                res.violation(f"{algo} ({policy}): the trees of a solution changed the colour of a leaf", info)
+                return
             keys.append(sol_key(sol, bO, bS, unordered))
         if best is None:
             if outs and costs != {"inf"}:
@@ -893,6 +933,11 @@ def multi_case(rng, unordered, coherent=True):
         if rng.random() < 0.5:
             case["ocol"] = {p: rng.choice(["red", "blue"]) for p in internal_paths(case["O"]) if rng.random() < 0.5}
             case["scol"] = {p: rng.choice(["red", "blue"]) for p in internal_paths(case["S"]) if rng.random() < 0.5}
+            if rng.random() < 0.5:  # coloured leaves (expected_tags only looks at internal paths)
+                case["ocol"].update({p: rng.choice(["red", "blue"]) for p, _ in solvers._leaves(case["O"])
+                                     if rng.random() < 0.4})
+                case["scol"].update({p: rng.choice(["red", "blue"]) for p in gen.leaf_paths(case["S"])
+                                     if rng.random() < 0.4})
         return case
 
 
